@@ -35,6 +35,10 @@ def handle (toks : List String) : Option String :=
   | ["lowertab"] =>
     -- the whole table of characters changed by `char::to_lowercase` (compared with the toolchain)
     some (",".intercalate (notLowerRanges.map fun r => toString r.1 ++ "-" ++ toString r.2))
+  | ["repl", _] =>
+    -- no arguments = the interactive loop (`C20_dispatch`); what the loop prints is compared by
+    -- the harness with the library run of the same lines (the model does not run SDK commands)
+    some "repl"
   | ["cli", args] => some (cli args)
   | ["cli", args, _] => some (cli args)
   | ["lint", text] =>
